@@ -5,7 +5,7 @@
        START_EVALUATION stays unmatched only when the evaluator raised or aborted inside that very
        evaluation. *)
 From Coq Require Import List Bool Arith Lia.
-From Ropt Require Import Model.Step Model.Events Proofs.Events.
+From Ropt Require Import Model.Step Model.Events Proofs.Step Proofs.Events.
 Import ListNotations.
 Open Scope nat_scope.
 Local Arguments firstn : simpl never.
@@ -241,3 +241,305 @@ Proof.
 Qed.
 
 End Closed.
+
+(* ---- (d) the programs compiled from the exit-code machine satisfy the side conditions of the theorems ----------
+   wf: step ids are not reused inside a step and START_/FINISHED_ step events come from run_step only -- for every step
+   specification (any fault script, nesting to any depth) with a top-level id below 100;
+   quiet: no step ends with USER_ABORT of its own accord -- when no evaluator call of the fault script raises the abort. *)
+(* ---- nested induction principles ---- *)
+Section TrInd.
+Variable P : tr -> Prop.
+Hypothesis HE : forall e, P (TE e).
+Hypothesis HI : forall o sub, Forall P sub -> P (TInner o sub).
+Fixpoint tr_ind' (x : tr) : P x :=
+  match x with
+  | TE e => HE e
+  | TInner o sub =>
+      HI o sub ((fix go (l : list tr) : Forall P l :=
+                   match l with [] => Forall_nil P | y :: t => Forall_cons y (tr_ind' y) (go t) end) sub)
+  end.
+End TrInd.
+
+Section NsInd.
+Variable P : nscript -> Prop.
+Hypothesis H : forall c items, (forall r st, In (r, Some st) items -> P st) -> P (NS c items).
+Lemma ns_ind' : forall t, P t.
+Proof.
+  fix IH 1. intros [c items]. apply H.
+  induction items as [|[r o] l IHl]; intros r' st Hin; [destruct Hin|].
+  destruct Hin as [E|Hin]; [|exact (IHl r' st Hin)].
+  destruct o as [st0|]; [|discriminate]. injection E as _ <-. apply IH.
+Qed.
+End NsInd.
+
+(* ---- traces of the tree machine ---- *)
+Fixpoint ok_one (x : tr) : bool :=
+  match x with TE e => is_eval_evt e | TInner _ sub => forallb ok_one sub end.
+Definition is_ua (o : outcome) : bool := match o with Exit UserAbort => true | _ => false end.
+Fixpoint calm_one (x : tr) : bool :=
+  match x with TE _ => true | TInner o sub => negb (is_ua o) && forallb calm_one sub end.
+
+Definition tr_of (x : tres) : list tr := snd (fst x).
+Definition out_of (x : tres) : outcome := fst (fst (fst x)).
+
+Lemma run_items_ok rec c :
+  forall items, (forall r st, In (r, Some st) items -> forall hs, forallb ok_one (tr_of (rec st hs)) = true) ->
+  forall n ca hs own, forallb ok_one (tr_of (run_items rec c items n ca hs own)) = true.
+Proof.
+  induction items as [|[r sub] rest IH]; intros Hrec n ca hs own; cbn [run_items]; [reflexivity|].
+  assert (IH' := IH (fun r' st' Hin => Hrec r' st' (or_intror Hin))). clear IH.
+  destruct (over_budget c n); [reflexivity|].
+  assert (G : forall id it hs1 (Hit : forallb ok_one it = true),
+    forallb ok_one (tr_of
+      match eval_req c r ca with
+      | VRaise => (Raise, id, it ++ [TE StartEval], (hs1, own))
+      | VAbort => (Exit UserAbort, id, it ++ [TE StartEval], (hs1, own))
+      | VInside _ rs => (Exit TooFew, id ++ rs, it ++ [TE StartEval; TE FinEval], (hs1, own || has_result rs))
+      | VResults rs m ca' =>
+          if few_opt c rs then (Exit TooFew, id ++ rs, it ++ [TE StartEval; TE FinEval], (hs1, own || has_result rs))
+          else let '(o, d, e, st') := run_items rec c rest (n + m) ca' hs1 (own || has_result rs) in
+               (o, id ++ rs ++ d, it ++ TE StartEval :: TE FinEval :: e, st')
+      end) = true).
+  { intros id it hs1 Hit. destruct (eval_req c r ca) as [| |dc rs|rs m ca1]; unfold tr_of; cbn [fst snd];
+      try (rewrite forallb_app, Hit; reflexivity).
+    destruct (few_opt c rs); [unfold tr_of; cbn [fst snd]; rewrite forallb_app, Hit; reflexivity|].
+    specialize (IH' (n + m) ca1 hs1 (own || has_result rs)).
+    destruct (run_items rec c rest (n + m) ca1 hs1 (own || has_result rs)) as [[[o d] e] s']. unfold tr_of in *. cbn [fst snd] in *.
+    rewrite forallb_app, Hit. cbn. exact IH'. }
+  destruct sub as [st|].
+  - specialize (Hrec r st (or_introl eq_refl) (tl hs)).
+    destruct (rec st (tl hs)) as [[[io id] itr] [hst iown]]. unfold tr_of in Hrec. cbn [fst snd] in Hrec.
+    assert (Hit : forallb ok_one [TInner io itr] = true) by (cbn; now rewrite Hrec).
+    destruct (nested_verdict io (hd false hs || iown)) as [o|]; [unfold tr_of; cbn [fst snd]; exact Hit | now apply G].
+  - now apply G.
+Qed.
+
+Theorem run_tree_ok : forall t hs, forallb ok_one (tr_of (run_tree t hs)) = true.
+Proof.
+  intros t. induction t as [c items IH] using ns_ind'. intros hs. cbn [run_tree]. apply run_items_ok. exact IH.
+Qed.
+
+(* ---- compiled programs are well formed ---- *)
+Lemma ids_pseq ps s : In s (ids (pseq ps)) <-> exists p, In p ps /\ In s (ids p).
+Proof.
+  induction ps as [|p t IH]; cbn [pseq ids].
+  - split; [intros [] | intros (p & [] & _)].
+  - rewrite in_app_iff, IH. split.
+    + intros [H|(q & Hq & Hs)]; [exists p; split; [now left | exact H] | exists q; split; [now right | exact Hs]].
+    + intros (q & [<-|Hq] & Hs); [now left | right; exists q; now split].
+Qed.
+Lemma wf_pseq ps : Forall wf ps -> wf (pseq ps).
+Proof. induction 1 as [|p t Hp _ IH]; cbn [pseq wf]; [exact I | now split]. Qed.
+Lemma quiet_pseq ps : Forall quiet ps -> quiet (pseq ps).
+Proof. induction 1 as [|p t Hp _ IH]; cbn [pseq quiet]; [exact I | now split]. Qed.
+
+Lemma sequence_Forall (f : tr -> option prog) (Q : prog -> Prop) (R : tr -> Prop) :
+  forall l ps, Forall R l -> (forall x p, R x -> In x l -> f x = Some p -> Q p) -> sequence f l = Some ps -> Forall Q ps.
+Proof.
+  induction l as [|x t IH]; intros ps HR Hf H; cbn in H.
+  - injection H as <-. constructor.
+  - inversion HR as [|? ? Hx Ht]; subst.
+    destruct (f x) as [p|] eqn:Ef; [|discriminate]. destruct (sequence f t) as [ps'|] eqn:Es; [|discriminate].
+    injection H as <-. constructor.
+    + apply (Hf x p Hx); [now left | exact Ef].
+    + apply (IH ps' Ht); [|reflexivity]. intros y q Hy Hin. apply Hf; [exact Hy | now right].
+Qed.
+
+Lemma is_eval_not_step e : is_eval_evt e = true -> is_start e = false /\ is_fin e = false.
+Proof. destruct e; cbn; intros H; try discriminate; split; reflexivity. Qed.
+
+(* every step id inside the program of a trace element of level lvl belongs to a deeper plan *)
+Theorem tprog_wf : forall x lvl sid p, ok_one x = true -> tprog lvl sid x = Some p ->
+  wf p /\ (forall s, In s (ids p) -> 100 * S lvl <= s).
+Proof.
+  induction x as [e | o sub IH] using tr_ind'; intros lvl sid p Hok H.
+  - cbn in Hok. destruct (is_eval_not_step e Hok) as [Hs Hf].
+    destruct e; cbn in H; injection H as <-; cbn [wf ids]; (split; [auto | intros s []]).
+  - cbn [tprog] in H. destruct o as [ex|]; [|discriminate].
+    destruct (sequence (tprog (S lvl) (nested_sid lvl)) sub) as [ps|] eqn:Es; [|discriminate]. injection H as <-.
+    cbn [ok_one] in Hok. rewrite forallb_forall in Hok.
+    assert (Hall : Forall (fun q => wf q /\ (forall s, In s (ids q) -> 100 * S (S lvl) <= s)) ps).
+    { apply (sequence_Forall (tprog (S lvl) (nested_sid lvl)) _ (fun y => ok_one y = true /\
+               forall lvl' sid' p', ok_one y = true -> tprog lvl' sid' y = Some p' ->
+                 wf p' /\ (forall s, In s (ids p') -> 100 * S lvl' <= s)) sub ps); [| |exact Es].
+      - rewrite Forall_forall in IH |- *. intros y Hy. split; [now apply Hok | apply IH; exact Hy].
+      - intros y q [Hy1 Hy2] _ Hq. exact (Hy2 _ _ _ Hy1 Hq). }
+    assert (Hge : forall s, In s (ids (pseq ps)) -> 100 * S (S lvl) <= s).
+    { intros s Hs. apply ids_pseq in Hs as (q & Hq & Hs). rewrite Forall_forall in Hall. exact (proj2 (Hall q Hq) s Hs). }
+    split.
+    + cbn [wf]. split.
+      * intros Hin. specialize (Hge _ Hin). unfold nested_sid in Hge. lia.
+      * apply wf_pseq. apply (Forall_impl _ (fun q Hq => proj1 Hq) Hall).
+    + cbn [ids]. intros s [<-|Hs]; [unfold nested_sid; lia | specialize (Hge s Hs); lia].
+Qed.
+
+Lemma tbody_wf lvl sid l b : forallb ok_one l = true -> tbody lvl sid l = Some b ->
+  wf b /\ (forall s, In s (ids b) -> 100 * S lvl <= s).
+Proof.
+  intros Hok H. unfold tbody in H. destruct (sequence (tprog lvl sid) l) as [ps|] eqn:Es; [|discriminate]. injection H as <-.
+  rewrite forallb_forall in Hok.
+  assert (Hall : Forall (fun q => wf q /\ (forall s, In s (ids q) -> 100 * S lvl <= s)) ps).
+  { apply (sequence_Forall (tprog lvl sid) _ (fun y => ok_one y = true) l ps); [| |exact Es].
+    - rewrite Forall_forall. exact Hok.
+    - intros y q Hy _ Hq. exact (tprog_wf y lvl sid q Hy Hq). }
+  split.
+  - apply wf_pseq. apply (Forall_impl _ (fun q Hq => proj1 Hq) Hall).
+  - intros s Hs. apply ids_pseq in Hs as (q & Hq & Hs). rewrite Forall_forall in Hall. exact (proj2 (Hall q Hq) s Hs).
+Qed.
+
+Lemma forallb_ok_TE evs : forallb ok_one (map TE (filter is_eval_evt evs)) = true.
+Proof. induction evs as [|e t IH]; [reflexivity|]. cbn. destruct (is_eval_evt e) eqn:E; [cbn; now rewrite E|exact IH]. Qed.
+
+(* every run_step call the model compiles -- evaluator step, optimizer step, nested to any depth, any fault script -- is a
+   well-formed program (hypothesis of the C15 theorems), provided top-level step ids are below 100 *)
+Theorem compile_step_wf sid s hs p hs' : sid < 100 -> compile_step sid s hs = Some (p, hs') -> wf p.
+Proof.
+  intros Hsid H. unfold compile_step in H. destruct s as [c script|t].
+  - destruct script as [|r rest]; [discriminate|].
+    destruct (run_evaluator_step c r) as [[o d] evs]. destruct o as [ex|]; [|discriminate].
+    destruct (tbody 0 sid (map TE (filter is_eval_evt evs))) as [b|] eqn:Eb; [|discriminate]. injection H as <- _.
+    destruct (tbody_wf 0 sid _ b (forallb_ok_TE evs) Eb) as [Hw Hge]. cbn [wf]. split; [|exact Hw].
+    intros Hin. specialize (Hge _ Hin). lia.
+  - pose proof (run_tree_ok t hs) as Hok. destruct (run_tree t hs) as [[[o d] l] [hs1 own]]. unfold tr_of in Hok. cbn [fst snd] in Hok.
+    destruct o as [ex|]; [|discriminate].
+    destruct (tbody 0 sid l) as [b|] eqn:Eb; [|discriminate]. injection H as <- _.
+    destruct (tbody_wf 0 sid l b Hok Eb) as [Hw Hge]. cbn [wf]. split; [|exact Hw].
+    intros Hin. specialize (Hge _ Hin). lia.
+Qed.
+
+Theorem compile_steps_wf : forall l hs ps, Forall (fun s => fst s < 100) l -> compile_steps l hs = Some ps -> Forall wf ps.
+Proof.
+  induction l as [|[sid s] t IH]; intros hs ps Hl H; cbn in H.
+  - injection H as <-. constructor.
+  - inversion Hl as [|? ? Hsid Ht]; subst. cbn in Hsid.
+    destruct (compile_step sid s hs) as [[p hs']|] eqn:Ec; [|discriminate].
+    destruct (compile_steps t hs') as [ps'|] eqn:Et; [|discriminate]. injection H as <-.
+    constructor; [exact (compile_step_wf sid s hs p hs' Hsid Ec) | exact (IH hs' ps' Ht Et)].
+Qed.
+
+(* ---- ... and quiet when the fault scripts contain no evaluator-raised abort ---- *)
+Definition is_fabort (f : fault) : bool := match f with FAbort => true | _ => false end.
+Fixpoint no_abort_tree (t : nscript) : bool :=
+  match t with
+  | NS _ items =>
+      forallb (fun it => negb (is_fabort (flt (fst it))) &&
+                         match snd it with Some st => no_abort_tree st | None => true end) items
+  end.
+Definition calm (x : tres) : Prop := is_ua (out_of x) = false /\ forallb calm_one (tr_of x) = true.
+
+Lemma is_fabort_false r : is_fabort (flt r) = false -> flt r <> FAbort.
+Proof. destruct (flt r); cbn; congruence. Qed.
+
+Lemma run_items_calm rec c :
+  forall items, (forall r st, In (r, Some st) items -> forall hs, calm (rec st hs)) ->
+  Forall (fun it => flt (fst it) <> FAbort) items ->
+  forall n ca hs own, calm (run_items rec c items n ca hs own).
+Proof.
+  induction items as [|[r sub] rest IH]; intros Hrec Hna n ca hs own; cbn [run_items]; [split; reflexivity|].
+  inversion Hna as [|? ? Hr Hrest]; subst. cbn [fst] in Hr.
+  assert (IH' := IH (fun r' st' Hin => Hrec r' st' (or_intror Hin)) Hrest). clear IH.
+  destruct (over_budget c n); [split; reflexivity|].
+  assert (Hnv : eval_req c r ca <> VAbort) by (intros E; apply (eval_req_abort c r ca) in E; contradiction).
+  assert (G : forall id it hs1 (Hit : forallb calm_one it = true),
+    calm
+      match eval_req c r ca with
+      | VRaise => (Raise, id, it ++ [TE StartEval], (hs1, own))
+      | VAbort => (Exit UserAbort, id, it ++ [TE StartEval], (hs1, own))
+      | VInside _ rs => (Exit TooFew, id ++ rs, it ++ [TE StartEval; TE FinEval], (hs1, own || has_result rs))
+      | VResults rs m ca' =>
+          if few_opt c rs then (Exit TooFew, id ++ rs, it ++ [TE StartEval; TE FinEval], (hs1, own || has_result rs))
+          else let '(o, d, e, st') := run_items rec c rest (n + m) ca' hs1 (own || has_result rs) in
+               (o, id ++ rs ++ d, it ++ TE StartEval :: TE FinEval :: e, st')
+      end).
+  { intros id it hs1 Hit. destruct (eval_req c r ca) as [| |dc rs|rs m ca1]; [| congruence | |];
+      unfold calm, out_of, tr_of; cbn [fst snd];
+      try (split; [reflexivity | rewrite forallb_app, Hit; reflexivity]).
+    destruct (few_opt c rs); [unfold calm, out_of, tr_of; cbn [fst snd]; split; [reflexivity | rewrite forallb_app, Hit; reflexivity]|].
+    destruct (IH' (n + m) ca1 hs1 (own || has_result rs)) as [I1 I2].
+    destruct (run_items rec c rest (n + m) ca1 hs1 (own || has_result rs)) as [[[o d] e] s']. unfold out_of, tr_of in *. cbn [fst snd] in *.
+    split; [exact I1 | rewrite forallb_app, Hit; cbn; exact I2]. }
+  destruct sub as [st|].
+  - destruct (Hrec r st (or_introl eq_refl) (tl hs)) as [H1 H2].
+    destruct (rec st (tl hs)) as [[[io id] itr] [hst iown]]. unfold out_of, tr_of in H1, H2. cbn [fst snd] in H1, H2.
+    assert (Hit : forallb calm_one [TInner io itr] = true) by (cbn; now rewrite H1, H2).
+    destruct (nested_verdict io (hd false hs || iown)) as [o|] eqn:Ev; [|now apply G].
+    unfold calm, out_of, tr_of; cbn [fst snd]. split; [|exact Hit].
+    destruct io as [x|]; [|injection Ev as <-; reflexivity].
+    destruct x; cbn in H1, Ev; try discriminate; destruct (hd false hs || iown); try discriminate; injection Ev as <-; reflexivity.
+  - now apply G.
+Qed.
+
+Theorem run_tree_calm : forall t, no_abort_tree t = true -> forall hs, calm (run_tree t hs).
+Proof.
+  intros t. induction t as [c items IH] using ns_ind'. intros Hna hs. cbn [run_tree no_abort_tree] in *.
+  rewrite forallb_forall in Hna. apply run_items_calm.
+  - intros r st Hin hs'. apply (IH r st Hin). specialize (Hna _ Hin). cbn in Hna. now apply andb_prop in Hna.
+  - rewrite Forall_forall. intros [r o] Hin. specialize (Hna _ Hin). cbn in Hna. apply andb_prop in Hna as [Hf _].
+    apply is_fabort_false. now apply negb_true_iff in Hf.
+Qed.
+
+Theorem tprog_quiet : forall x lvl sid p, calm_one x = true -> tprog lvl sid x = Some p -> quiet p.
+Proof.
+  induction x as [e | o sub IH] using tr_ind'; intros lvl sid p Hc H.
+  - destruct e; cbn in H; injection H as <-; cbn; auto.
+  - cbn [tprog] in H. destruct o as [ex|]; [|discriminate].
+    destruct (sequence (tprog (S lvl) (nested_sid lvl)) sub) as [ps|] eqn:Es; [|discriminate]. injection H as <-.
+    cbn [calm_one] in Hc. apply andb_prop in Hc as [Hex Hsub]. rewrite forallb_forall in Hsub.
+    cbn [quiet]. split.
+    + intros ->. discriminate.
+    + apply quiet_pseq.
+      apply (sequence_Forall (tprog (S lvl) (nested_sid lvl)) quiet (fun y => calm_one y = true /\
+               forall lvl' sid' p', calm_one y = true -> tprog lvl' sid' y = Some p' -> quiet p') sub ps); [| |exact Es].
+      * rewrite Forall_forall in IH |- *. intros y Hy. split; [now apply Hsub | apply IH; exact Hy].
+      * intros y q [Hy1 Hy2] _ Hq. exact (Hy2 _ _ _ Hy1 Hq).
+Qed.
+
+Lemma tbody_quiet lvl sid l b : forallb calm_one l = true -> tbody lvl sid l = Some b -> quiet b.
+Proof.
+  intros Hc H. unfold tbody in H. destruct (sequence (tprog lvl sid) l) as [ps|] eqn:Es; [|discriminate]. injection H as <-.
+  rewrite forallb_forall in Hc. apply quiet_pseq.
+  apply (sequence_Forall (tprog lvl sid) quiet (fun y => calm_one y = true) l ps); [| |exact Es].
+  - rewrite Forall_forall. exact Hc.
+  - intros y q Hy _ Hq. exact (tprog_quiet y lvl sid q Hy Hq).
+Qed.
+
+Lemma forallb_calm_TE evs : forallb calm_one (map TE evs) = true.
+Proof. induction evs as [|e t IH]; [reflexivity | exact IH]. Qed.
+
+Definition no_abort_spec (s : stepspec) : bool :=
+  match s with
+  | SEval _ script => forallb (fun r => negb (is_fabort (flt r))) script
+  | SOpt t => no_abort_tree t
+  end.
+
+(* ... and quiet (no step ends with USER_ABORT of its own accord) when no evaluator call of the fault script raises the abort:
+   then the abort index is the only source of aborts, as the C15 theorems assume *)
+Theorem compile_step_quiet sid s hs p hs' : no_abort_spec s = true -> compile_step sid s hs = Some (p, hs') -> quiet p.
+Proof.
+  intros Hna H. unfold compile_step in H. destruct s as [c script|t].
+  - destruct script as [|r rest]; [discriminate|]. cbn in Hna. apply andb_prop in Hna as [Hr _].
+    apply negb_true_iff in Hr. apply is_fabort_false in Hr.
+    pose proof (evaluator_step_classification c r) as Hcl.
+    destruct (run_evaluator_step c r) as [[o d] evs]. destruct o as [ex|]; [|discriminate].
+    destruct (tbody 0 sid (map TE (filter is_eval_evt evs))) as [b|] eqn:Eb; [|discriminate]. injection H as <- _.
+    cbn [quiet]. split; [|exact (tbody_quiet 0 sid _ b (forallb_calm_TE _) Eb)].
+    intros ->. destruct (flt r) as [| |fms pm]; [destruct Hcl as [Hc _]; discriminate | congruence |].
+    destruct Hcl as [_ Hcl]. destruct (eval_vectors c fms); [destruct Hcl as [Hc _]; discriminate|].
+    destruct Hcl as (_ & _ & _ & [Hc|Hc]); discriminate.
+  - destruct (run_tree_calm t Hna hs) as [H1 H2].
+    destruct (run_tree t hs) as [[[o d] l] [hs1 own]]. unfold out_of, tr_of in H1, H2. cbn [fst snd] in H1, H2.
+    destruct o as [ex|]; [|discriminate].
+    destruct (tbody 0 sid l) as [b|] eqn:Eb; [|discriminate]. injection H as <- _.
+    cbn [quiet]. split; [intros ->; discriminate | exact (tbody_quiet 0 sid l b H2 Eb)].
+Qed.
+
+Theorem compile_steps_quiet : forall l hs ps, forallb (fun s => no_abort_spec (snd s)) l = true ->
+  compile_steps l hs = Some ps -> Forall quiet ps.
+Proof.
+  induction l as [|[sid s] t IH]; intros hs ps Hl H; cbn in H.
+  - injection H as <-. constructor.
+  - cbn in Hl. apply andb_prop in Hl as [Hs Ht].
+    destruct (compile_step sid s hs) as [[p hs']|] eqn:Ec; [|discriminate].
+    destruct (compile_steps t hs') as [ps'|] eqn:Et; [|discriminate]. injection H as <-.
+    constructor; [exact (compile_step_quiet sid s hs p hs' Hs Ec) | exact (IH hs' ps' Ht Et)].
+Qed.
